@@ -316,3 +316,155 @@ def op_total_file(case):
     r = op_total(case)
     r["file_exec"] = obs_parse_file(case["src"], want=())
     return r
+
+
+# ---------------------------------------------------------------------------------------------
+# grammar -> JSON (for gram2tla); uses the repository's own metagrammar parser
+# ---------------------------------------------------------------------------------------------
+def op_gramjson(case):
+    """Parse a .gram file with the repository's pegen and return a flat description:
+    {"rules": {name: {"alts": [[item...]...], "memo": bool, "left_recursive": bool, "leader": bool,
+    "nullable": bool, "synthetic": bool}}, "order": [...]}, items = {"k","v","s"}; nested groups /
+    optionals / repeats become synthetic rules g_<n>."""
+    from pegen import grammar as G
+    from pegen.build import build_parser
+    from pegen.parser_generator import compute_left_recursives, compute_nullables
+
+    path = case.get("path") or os.path.join(REPO, "tasks", "xonsh.gram")
+    gram, _p, _t = build_parser(path)
+    rules = dict(gram.rules)
+    try:
+        compute_nullables(rules)
+        compute_left_recursives(rules)
+    except Exception:  # noqa: BLE001
+        pass
+    out, order, counter, cache = {}, [], [0], {}
+
+    def synth(rhs):
+        key = repr(rhs)
+        if key in cache:
+            return cache[key]
+        counter[0] += 1
+        name = f"g_{counter[0]}"
+        cache[key] = name
+        out[name] = {"alts": None, "memo": False, "left_recursive": False, "leader": False, "nullable": False, "synthetic": True}
+        order.append(name)
+        out[name]["alts"] = [alt_items(a) for a in rhs.alts]
+        return name
+
+    def as_rule(node):
+        """name of a rule deriving exactly `node`"""
+        if isinstance(node, G.NameLeaf) and node.value in rules:
+            return node.value
+        if isinstance(node, G.Group):
+            return synth(node.rhs)
+        if isinstance(node, G.Rhs):
+            return synth(node)
+        return synth(G.Rhs([G.Alt([G.NamedItem(None, node)])]))
+
+    def item(node):
+        if isinstance(node, G.NamedItem):
+            return item(node.item)
+        if isinstance(node, G.NameLeaf):
+            v = node.value
+            if v in rules:
+                return {"k": "rule", "v": v, "s": ""}
+            return {"k": "tok", "v": v, "s": ""}
+        if isinstance(node, G.StringLeaf):
+            return {"k": "lit", "v": ast.literal_eval(node.value), "s": "soft" if node.value.startswith('"') else ""}
+        if isinstance(node, G.Group):
+            return {"k": "rule", "v": synth(node.rhs), "s": ""}
+        if isinstance(node, G.Rhs):
+            return {"k": "rule", "v": synth(node), "s": ""}
+        if isinstance(node, G.Opt):
+            return {"k": "opt", "v": as_rule(node.node), "s": ""}
+        if isinstance(node, G.Gather):
+            return {"k": "gather", "v": as_rule(node.node), "s": as_rule(node.separator)}
+        if isinstance(node, G.Repeat0):
+            return {"k": "star", "v": as_rule(node.node), "s": ""}
+        if isinstance(node, G.Repeat1):
+            return {"k": "plus", "v": as_rule(node.node), "s": ""}
+        if isinstance(node, G.PositiveLookahead):
+            return {"k": "pos", "v": as_rule(node.node), "s": ""}
+        if isinstance(node, G.NegativeLookahead):
+            return {"k": "neg", "v": as_rule(node.node), "s": ""}
+        if isinstance(node, G.Forced):
+            return {"k": "forced", "v": as_rule(node.node), "s": ""}
+        if isinstance(node, G.Cut):
+            return {"k": "cut", "v": "", "s": ""}
+        raise TypeError(type(node))
+
+    def alt_items(alt):
+        return [item(it) for it in alt.items]
+
+    for name, r in rules.items():
+        out[name] = {"alts": [alt_items(a) for a in r.rhs.alts], "memo": bool(r.memo), "left_recursive": bool(r.left_recursive),
+                     "leader": bool(r.leader), "nullable": bool(r.nullable), "synthetic": False,
+                     "actions": [bool(a.action) for a in r.rhs.alts]}
+        order.append(name)
+    return {"rules": out, "order": order}
+
+
+# ---------------------------------------------------------------------------------------------
+# tree digests and pair comparison
+# ---------------------------------------------------------------------------------------------
+def _h(x) -> int:
+    import zlib
+
+    return zlib.crc32(repr(x).encode()) & 0xFFFFFF
+
+
+def row_digests(rows) -> list:
+    return [[_h((r[0], r[1], r[2], r[3], r[9])), _h(r[8]), _h((r[4], r[5], r[6], r[7]))] for r in rows]
+
+
+def first_diff(a, b):
+    for i in range(max(len(a), len(b))):
+        ra = a[i] if i < len(a) else None
+        rb = b[i] if i < len(b) else None
+        if ra != rb:
+            return {"index": i, "impl": ra, "ref": rb}
+    return None
+
+
+def byte_cols(rows, src: str):
+    """implementation rows with character columns converted to UTF-8 byte columns (the
+    explanation matcher of known finding K-C01-nonascii-columns)"""
+    lines = src.split("\n")
+    out = []
+    for r in rows:
+        r = list(r)
+        for li, ci in ((4, 5), (6, 7)):
+            l, c = r[li], r[ci]
+            if isinstance(l, int) and isinstance(c, int) and 1 <= l <= len(lines) and c >= 0:
+                r[ci] = len(lines[l - 1][:c].encode("utf-8"))
+        out.append(r)
+    return out
+
+
+def op_c01(case):
+    """CPython vs implementation on a Python source: accept/raise verdicts, tree digests."""
+    src, mode = case["src"], case.get("mode", "exec")
+    py = obs_pyparse(src, mode)
+    r = {"py_ok": py["ok"]}
+    if not py["ok"]:
+        r["py_exc"] = py["exc"]
+    im = obs_parse(src, mode, want=("rows", "compile") if case.get("compile") else ("rows",))
+    r["impl_ok"] = bool(im.get("ok"))
+    r["impl_hang"] = bool(im.get("hang"))
+    r["impl_exc"] = im.get("exc")
+    r["impl_type"] = im.get("type")
+    if case.get("compile"):
+        r["compile"] = im.get("compile")
+    if py["ok"] and im.get("ok") and "rows" in im:
+        r["a"] = row_digests(im["rows"])
+        r["b"] = row_digests(py["rows"])
+        if r["a"] != r["b"]:
+            r["diff"] = first_diff(im["rows"], py["rows"])
+            if not src.isascii():
+                r["eq_after_bytecols"] = row_digests(byte_cols(im["rows"], src)) == r["b"]
+        if case.get("want_rows"):
+            r["rows"] = im["rows"]
+    elif im.get("ok") and "rows" in im and case.get("want_rows"):
+        r["rows"] = im["rows"]
+    return r
